@@ -71,9 +71,16 @@ Sensitivity (quick tier, seed 1, scratch copies, one mutant of tornado/tcpclient
      deferred retry starts c).  Found by independent mutation testing; earlier versions had raising creation faults only
      in the tcpclient part and could not complete two attempts in one loop iteration -> "raise" address mode, batch op and
      the connector_enum_raise sweep were added.
+  M12 TCPClient.connect: a timedelta timeout converted with `.seconds` instead of total_seconds() (timedelta(milliseconds=750)
+     or timedelta(days=1) fires at once)          -> caught at seeds 1,2,3  C10.tcpclient_timeout_before_deadline
+     Found by independent "boundary" mutation testing: `timeout` was only ever None / 0.5 / 2.0.  Added every documented form
+     (float, int, timedelta sub-second / whole seconds / 59.999 s / 60 s / just under and over one day), the clauses "TimeoutError
+     never before the deadline" and "completed by the deadline" observed after every op, and the deterministic part
+     tcpclient_timeout_forms (14 forms x resolver now/delayed x 1-2 families x schedules just before / at / after the deadline).
   M11 try_connect: connect() call unguarded again (pre-484fc54 behaviour)      -> caught
 """
 import asyncio
+import datetime
 import errno
 import gc
 import itertools
@@ -222,7 +229,8 @@ def run_connector(ctx, case):
             # EITHER: a connect callable raising for the very first address may propagate out of start()
             # (that is how TCPClient.connect reported it before try_connect guarded the call); nothing was opened.
             if e is not (attempts[0].error if attempts else None) or len(attempts) != 1:
-                raise
+                fail("C10.start_raised_unexpectedly", {"error": repr(e), "attempts": [repr(a) for a in attempts]})
+                return 0
             info["labels"].add("start_raised")
             return 0
         holder["started"] = True
@@ -482,7 +490,10 @@ CREATE = ["async", "async", "async", "sock_raise", "bind_raise", "ctor_raise"]
 tcp_addr_s = st.tuples(st.sampled_from([4, 6]), st.sampled_from(CREATE))
 tcp_case_s = st.fixed_dictionaries({
     "addrs": st.lists(tcp_addr_s, min_size=1, max_size=4),
-    "timeout": st.sampled_from([None, None, 0.5, 2.0]),
+    # every documented form of `timeout`: None, float / int seconds, datetime.timedelta (sub-second, whole seconds,
+    # more than one day) - encoded as plain data, see tcp_timeout()
+    "timeout": st.sampled_from([None, None, 0.5, 2.0, ("int", 2), ("td", 0, 0, 750), ("td", 0, 2, 0), ("td", 0, 1, 500),
+                                ("td", 1, 0, 0), ("td", 1, 3, 0)]),
     "source_ip": st.booleans(),
     "source_port": st.booleans(),
     "resolver": st.sampled_from(["now", "now", "now", "delayed", "fail"]),
@@ -499,6 +510,21 @@ def tcp_entries(case):
     if dup is not None:
         ent.insert(dup[1] % (len(ent) + 1), ent[dup[0] % len(ent)])
     return ent
+
+
+def tcp_timeout(case):
+    """-> (argument passed as `timeout=`, its length in seconds or None)"""
+    t = case["timeout"]
+    if t is None:
+        return None, None
+    if isinstance(t, (int, float)):
+        return t, float(t)
+    if t[0] == "int":
+        return int(t[1]), float(t[1])
+    if t[0] == "float":
+        return float(t[1]), float(t[1])
+    days, secs, ms = t[1], t[2], t[3]
+    return datetime.timedelta(days=days, seconds=secs, milliseconds=ms), days * 86400.0 + secs + ms / 1000.0
 
 
 class FakeSock:
@@ -638,8 +664,23 @@ def run_tcpclient(ctx, case):
             kw["source_ip"] = "127.0.0.9"
         if case["source_port"]:
             kw["source_port"] = 4321
-        task = asyncio.ensure_future(client.connect("host.test", 80, timeout=case["timeout"], **kw))
+        timeout_arg, timeout_s = tcp_timeout(case)
+        loop = asyncio.get_running_loop()
+        t0 = loop.time()
+        task = asyncio.ensure_future(client.connect("host.test", 80, timeout=timeout_arg, **kw))
         await vtime.settle()
+
+        def watch():
+            now = loop.time() - t0
+            if task.done() and "done_at" not in info:
+                info["done_at"] = now
+                exc = None if task.cancelled() else task.exception()
+                if isinstance(exc, GenTimeoutError) and timeout_s is not None and now < timeout_s - 1e-6:
+                    fail("C10.tcpclient_timeout_before_deadline", {"at": now, "timeout_seconds": timeout_s, "form": repr(timeout_arg)})
+            if not task.done() and timeout_s is not None and now >= timeout_s + 1e-6:
+                fail("C10.tcpclient_timeout_missed", {"now": now, "timeout_seconds": timeout_s, "form": repr(timeout_arg)})
+
+        watch()
 
         def inflight():
             return [s for s in world.streams if s.future is not None and not s.future.done()]
@@ -665,6 +706,7 @@ def run_tcpclient(ctx, case):
             else:
                 await vtime.advance(op[1])
             await vtime.settle()
+            watch()
         # ---- drain
         for _ in range(3 * len(addrinfo) + 4):
             if resolver.gate is not None and not resolver.gate.done():
@@ -698,7 +740,7 @@ def run_tcpclient(ctx, case):
                 info["labels"].add("tcp_success")
             elif isinstance(exc, (OSError, GenTimeoutError, StreamClosedError)):
                 info["labels"].add("tcp_error_" + type(exc).__name__)
-                if isinstance(exc, GenTimeoutError) and case["timeout"] is None:
+                if isinstance(exc, GenTimeoutError) and timeout_s is None:
                     fail("C10.tcpclient_timeout_without_timeout", {})
             else:
                 fail("C10.tcpclient_crash", {"exception": repr(exc)},
@@ -749,12 +791,39 @@ def run_tcpclient(ctx, case):
     if world.ctor_raised:
         labels.add("tcp_ctor_raised")
     labels.add("tcp_resolver_" + case["resolver"])
+    t = case["timeout"]
+    labels.add("tcp_timeout_form_" + ("none" if t is None else "float" if isinstance(t, float) else
+                                      "int" if isinstance(t, int) or t[0] == "int" else
+                                      "timedelta_subsecond" if t[1] == 0 and t[2] == 0 else
+                                      "timedelta_days" if t[1] else "timedelta"))
     if case.get("dup") is not None:
         labels.add("tcp_duplicate_entry")
     ctx.note(case, labels, nontrivial=len(addrinfo) >= 2 and info["events"] >= 1)
 
 
-PARTS = {"connector": run_connector, "connector_enum": run_connector, "connector_enum_raise": run_connector,
+TIMEOUT_FORMS = [0.75, 2.0, ("int", 1), ("int", 3), ("td", 0, 0, 1), ("td", 0, 0, 750), ("td", 0, 1, 0), ("td", 0, 2, 0),
+                 ("td", 0, 1, 500), ("td", 0, 59, 999), ("td", 0, 60, 0), ("td", 1, 0, 0), ("td", 1, 3, 0), ("td", 0, 86399, 0)]
+
+
+def tcp_timeout_grid():
+    """Every form of the `timeout` argument x schedules around its deadline (nothing happens / success before / nothing
+    until just before, at and after the deadline), resolver immediate or delayed, one or two families."""
+    for form in TIMEOUT_FORMS:
+        secs = tcp_timeout({"timeout": form})[1]
+        for resolver in ("now", "delayed"):
+            for addrs in ([(4, "async")], [(4, "async"), (6, "async")]):
+                schedules = [[], [("advance", 0.1), ("ok", 0)], [("advance", 0.1), ("fail", 0), ("advance", 0.4)]]
+                if secs <= 100:
+                    schedules += [[("advance", max(secs - 0.25, 0.0))], [("advance", secs)], [("advance", secs + 0.5)],
+                                  [("advance", secs / 2), ("resolve", 0), ("advance", secs / 2), ("ok", 0)]]
+                else:
+                    schedules += [[("advance", 3.0)], [("advance", 3.0), ("resolve", 0), ("advance", 60.0), ("ok", 0)]]
+                for ops in schedules:
+                    yield {"addrs": addrs, "timeout": form, "source_ip": False, "source_port": False, "resolver": resolver,
+                           "dup": None, "ops": ops}
+
+
+PARTS = {"tcpclient_timeout_forms": run_tcpclient, "connector": run_connector, "connector_enum": run_connector, "connector_enum_raise": run_connector,
          "tcpclient": run_tcpclient}
 
 
@@ -767,4 +836,5 @@ def main(ctx):
     ctx.enumerate(cases, run_connector, name="connector_enum")
     ctx.enumerate(enum_raise_cases(3 if ctx.thorough else 2), run_connector, name="connector_enum_raise")
     ctx.explore(conn_case_s, run_connector, ctx.n(1200, 150000), name="connector")
+    ctx.enumerate(tcp_timeout_grid(), run_tcpclient, name="tcpclient_timeout_forms", exhaustive=False)
     ctx.explore(tcp_case_s, run_tcpclient, ctx.n(800, 60000), name="tcpclient")
